@@ -22,7 +22,7 @@ def replyB : Except Err Bool → Sexp
   | .ok b => tagged "ok" [atom (if b then "true" else "false")]
   | .error err => err.toSexp
 
-def boolOf? : Sexp → Option Bool
+def exprBoolOf? : Sexp → Option Bool
   | atom "true" => some true
   | atom "false" => some false
   | _ => none
@@ -129,12 +129,12 @@ def handleExpr (op : String) (args : List Sexp) : Option Sexp :=
   | "lt", [a, b] => do pure (replyB (.ok ((← wfExpr? a).ltE (← wfExpr? b))))
   | "eq", [a, b] => do pure (replyB (.ok ((← wfExpr? a).eqb (← wfExpr? b))))
   | "product_safe", [list es] => do pure (okE (productSafe (← es.mapM wfExpr?)))
-  | "sum_safe", [e, r, s] => do pure (okE (sumSafe (← wfExpr? e) (← varsOf? r) (← boolOf? s)))
+  | "sum_safe", [e, r, s] => do pure (okE (sumSafe (← wfExpr? e) (← varsOf? r) (← exprBoolOf? s)))
   | "marginalize", [e, r] => do pure (okE ((← wfExpr? e).marginalize (← varsOf? r)))
   | "normalize_marginalize", [e, r] => do pure (replyE ((← wfExpr? e).normalizeMarginalize (← varsOf? r)))
   | "conditional", [e, r] => do pure (replyE ((← wfExpr? e).conditional (← varsOf? r)))
   | "simplify", [e] => do pure (replyE (← wfExpr? e).simplify)
-  | "chain_expand", [p, r, o] => do pure (replyE (chainExpand (← wfExpr? p) (← boolOf? r) (← optVarsOf? o)))
+  | "chain_expand", [p, r, o] => do pure (replyE (chainExpand (← wfExpr? p) (← exprBoolOf? r) (← optVarsOf? o)))
   | "fraction_expand", [p] => do pure (replyE (fractionExpand (← wfExpr? p)))
   | "bayes_expand", [p] => do pure (replyE (bayesExpand (← wfExpr? p)))
   | "contract", [e] => do pure (okE (contract (← wfExpr? e)))
